@@ -85,11 +85,8 @@
     #[kani::unwind(34)]
     fn w1_theta_offer_small() { body_offer(9, kani::any()); }
 
-    // (2) the symbolic offer is the 17th: if new, it triggers the growth 32 -> 64 slots; the view must survive the rehash
-    #[kani::proof]
-    #[kani::unwind(66)]
-    fn w1_theta_offer_triggers_growth() { body_offer(16, kani::any()); }
-
+    // (2) [not tractable: the symbolic offer as the 17th hash, i.e. a rehash of a table with one symbolic entry - CBMC runs out of memory
+    //     (> 14 GB) in the propositional reduction; growth is therefore always replayed on concrete hashes, see (3)]
     // (3) the table has grown (19 hashes offered, rehash of colliding groups done), then the symbolic offer: every hash offered BEFORE
     //     the growth must still be recognised as a repeat
     #[kani::proof]
@@ -113,7 +110,7 @@
     fn w1_theta_reset_after_growth() { body_reset(19, 3, kani::any()); }
     #[kani::proof]
     #[kani::unwind(66)]
-    fn w1_theta_reset_then_regrow() { body_reset(19, 16, kani::any()); }
+    fn w1_theta_reset_then_regrow() { body_reset(19, 17, kani::any()); }
     #[kani::proof]
     #[kani::unwind(34)]
     fn w1_theta_reset_without_growth() { body_reset(9, 0, kani::any()); }
